@@ -38,6 +38,19 @@ CLAIMED = {
              "Sequence-level programs (square pulses at the set-point, idle at the off-detuning, stored chosen off-detuning) and the phase-drift "
              "bookkeeping of correct_phase_drift with symbolic idle durations.", ref="§6 C15",
              note="Trusted base: z3 (QF_NRA for K1), symx, stubs in the evidence file; EOM configuration numbers concrete; emulator equivalence outside the claim."),
+ "C05": dict(text="Bounded symbolic model checking of the emulated Hamiltonian: the real QutipEmulator.from_sequence / __init__, "
+             "Hamiltonian.__init__ / set_config / _extract_samples / _construct_hamiltonian / get_hamiltonian (over the real sampler and "
+             "to_nested_dict) run on 9 (quick) / 13 (thorough) programs - one to three bases, global/local/multi-target channels, DMM with symbolic "
+             "weights, SLM mask in Ising and XY mode, 3D register with a tilted magnetic field, permuted atom ids, EOM block, phase shifts - with "
+             "concrete timelines/phases/geometry and symbolic amplitudes, detunings and detuning-map weights; for every integer t in [0,T) every "
+             "entry of H(t) is compared with the documented formula built from the schedule's slots (state ordering, tensor order, "
+             "Omega/2 e^{-i phi}|a><b| + h.c. - delta|b><b|, C6/R^6 n_i n_j, C3(1-3cos^2)/R^3 exchange with masked atoms decoupled), "
+             "plus Hermiticity and the documented basis vectors.", ref="§12",
+             note="Trusted base: z3, symx (complex proxy = pair of exact reals), and the stand-in for qutip.QobjEvo (keeps the (operator, "
+             "coefficient array) terms; sum on grid times) - all other QuTiP calls are the compiled ones on concrete data. Entries compared within "
+             "1e-6 absolute (+1e-9 relative on interaction strengths). Outside: noise, sampling_rate<1, modulation, t=T, overlapping non-zero pulses "
+             "of two channels on one atom/basis, symbolic geometry or phases. Known finding F17 (phases of two Global channels on one basis add) is "
+             "reported as KNOWN-FINDING; F18 (XY mask interaction off by 1 ns) was repaired in /repo."),
  "C06": dict(text="Bounded symbolic model checking of sampling: 9 programs (global/local/multi-target channels, retargets, DMM with "
              "detuning map, XY + SLM mask, EOM blocks incl. modify and enable/disable on an empty channel) with concrete timelines and symbolic "
              "amplitudes, detunings and detuning-map weights; every nanosecond of every channel, of the per-atom view (all_local False/True) and of "
@@ -96,7 +109,6 @@ CLAIMED = {
 
 NOT_YET = "check not built yet in this round (planned in DESIGN.md §6)"
 NA = {
- "C05": "QuTiP compiled operators (Qobj/QobjEvo/tensor) cannot carry solver terms; identity between complex matrices with exp/cos/R^-6 coefficients is numeric differential-testing territory, not SMT (DESIGN §7)",
  "C11": "adaptive ODE / master-equation integration and random sampling have no bounded symbolic encoding; the one solver-shaped kernel needs bit-precise binary64 mul/div which z3 and cvc5 did not decide in 900 s (DESIGN §7)",
  "C14": "FFT-based Gaussian filter (np.fft, compiled, transcendental kernel, trip count = signal length) is outside solver reach (DESIGN §7)",
  "C20": "observable values are traces/expectations of QuTiP objects; only the evaluation-time matching rule would be encodable, leaving two of three sentences undecided (DESIGN §7)",
